@@ -96,3 +96,24 @@ Theorem top_level_progress : forall cfg toks src_len nt (g : nt -> prog nt) disp
   cur (co s) < cur (co (top_level_item cfg toks src_len nt g dispatch stop_ids f s)).
 Proof. exact MachineProofs.top_level_progress. Qed.
 Print Assumptions top_level_progress.
+
+(* ---- the tokenizer wrapper (parser/src/tokenizer/mod.rs) over abstract lexers ---- *)
+From YV Require Import Parser.Tokenizer Parser.TokenizerProofs Parser.TokenizerInst Gen.TokenizerGen.
+
+(* Whatever the three lexers answer within their contract (None exactly at the end of the
+   input, otherwise a non-empty span inside the remaining input) and however the parser
+   interleaves next_token / enter_hex_pattern_mode / enter_hex_jump_mode, the tokens returned by
+   the wrapper -- with the restart offsets and pseudo-token spans the current source has
+   (Gen/TokenizerGen.v) -- are non-empty, contiguous, ordered, start at 0, stay inside the input
+   and end at its length once next_token has reported the end: no byte is lost or duplicated. *)
+Theorem tokens_tile_source : forall lex src ops,
+  lex_ok lex ->
+  let '(ts, st, ended) := run_ops yara_tcfg lex src ops init_tstate false in
+  chain 0 ts (tcur st) /\ tcur st <= length src /\ (ended = true -> chain 0 ts (length src)).
+Proof. exact TokenizerInst.yara_tokens_tile_source. Qed.
+Print Assumptions tokens_tile_source.
+
+(* the code before 03453382 (INVALID_UTF8 = start..start+1) does not tile: bytes e2 80 61 *)
+Check TokenizerProofs.tokens_tile_source_old_code_refuted.
+Check TokenizerProofs.tokens_tile_source_new_code.
+Check TokenizerProofs.w_lex_ok : lex_ok w_lex.
